@@ -2,7 +2,10 @@
 
 oracle (real code only): create_db on an occupied path raises without force and leaves the content untouched; with
 force the result holds only the new input; every read-style method issues only SELECT/PRAGMA statements (sqlite3 trace
-callback on FeatureDB.conn) and the content observed after reopening the file is unchanged.
+callback on FeatureDB.conn) and the content observed after reopening the file is unchanged.  Old databases include
+ones emptied (or partly emptied) with FeatureDB.delete(); read sequences also run on a FeatureDB on which a write-style
+call has just failed half-way (exception caught by the caller): no write / COMMIT during the reads, and after closing
+WITHOUT commit the file holds what it held before the failed call (`check_failed_write`, replayable).
 correspondence: `World.createDb` (GffModel/World.lean, through the `world` command of ProtoWorld) on the same
 (old database, new input, force) sequences - which files exist and their content after every create_db call; the
 classification of operations in the Lean World model (reads leave the persistent state unchanged) - the model's dump
@@ -68,6 +71,160 @@ def clobber_input(r, tag):
     return lines
 
 
+def read_calls(db, r, ids, n, res):
+    """`n` read-style calls with random arguments on `db`; returns their names"""
+    calls = []
+    for _ in range(n):
+        x = r.choice(ids)
+        k = r.randrange(14)
+        try:
+            with warnings.catch_warnings():
+                warnings.simplefilter("ignore")
+                if k == 0:
+                    calls.append("getitem"); db[x]
+                elif k == 1:
+                    calls.append("all_features"); list(db.all_features(order_by=r.choice([None, "start", "length"])))
+                elif k == 2:
+                    calls.append("features_of_type"); list(db.features_of_type(r.choice(["exon", "gene", "mRNA"])))
+                elif k == 3:
+                    calls.append("children"); list(db.children(x, level=r.choice([None, 1, 2])))
+                elif k == 4:
+                    calls.append("parents"); list(db.parents(x))
+                elif k == 5:
+                    calls.append("region"); list(db.region(seqid="chr1", start=1, end=r.randrange(1, 5000),
+                                                           completely_within=r.random() < 0.5))
+                elif k == 6:
+                    calls.append("interfeatures"); list(db.interfeatures(db.all_features(order_by=("seqid", "start"))))
+                elif k == 7:
+                    calls.append("create_introns"); list(db.create_introns())
+                elif k == 8:
+                    calls.append("merge"); list(db.merge(db.all_features(order_by=("seqid", "strand", "featuretype", "start"))))
+                elif k == 9:
+                    calls.append("children_bp"); db.children_bp(x, child_featuretype="exon", merge=r.random() < 0.5)
+                elif k == 10:
+                    calls.append("bed12")
+                    try:
+                        db.bed12(x)
+                    except (ValueError, AssertionError, UnboundLocalError):
+                        pass
+                elif k == 11:
+                    calls.append("count"); db.count_features_of_type(r.choice([None, "exon"]))
+                elif k == 12:
+                    calls.append("featuretypes/seqids"); list(db.featuretypes()); list(db.seqids())
+                else:
+                    calls.append("create_splice_sites")
+                    try:
+                        list(db.create_splice_sites())
+                    except (KeyError, IndexError):
+                        pass        # exons without ID attribute: outside the property's domain for splice sites
+        except Exception as ex:
+            res.count("read_call_raised_" + type(ex).__name__)
+    return calls
+
+
+class CallbackBroke(Exception):
+    """what the user-supplied parent_func / child_func of the failed-write scenario raises"""
+
+
+def _broken_func(parent, child):
+    raise CallbackBroke("user callback failed")
+
+
+FAILED = [0]
+
+
+def check_failed_write(ctx, case, res, scripts=None):
+    """a write-style call that fails HALF-WAY (its first statement was executed on FeatureDB.conn, then an exception
+    the caller catches), then only read-style calls on the same FeatureDB, then the connection is closed WITHOUT
+    commit and the file is opened again: the reads must issue no write and no COMMIT (a COMMIT is what would make the
+    abandoned half-done write permanent), and features, relations, directives, dialect and id counters observed after
+    reopening equal those before the failed call.
+    World correspondence: create ; connect ; [failed write: in the model a failed write keeps the pre-state] ;
+    count (reads) ; connect again (the file as it is on disk) ; count."""
+    import random
+    import gffutils
+    FAILED[0] += 1
+    root = os.path.join(ctx.scratch, "failedwrite%d" % FAILED[0])
+    rw = worldside.RealWorld(os.path.join(root, "w"), os.path.join(root, "in"))
+    name, lines, w = "fw.db", case["input"], case["write"]
+    dbfn = os.path.join(rw.root, name)
+    res.evaluations += 1
+    try:
+        if rw.create(name, lines, dbside.Cfg.from_json(case["config"]), False) != "ok":
+            res.count("failed_write_input_not_importable")
+            return
+        d0 = gffutils.FeatureDB(dbfn)
+        before = dbside.dump(d0)
+        d0.conn.close()
+        before_all = logical_dump(dbfn)
+        rw.connect(name)
+        db = rw.db
+        ids = [f.id for f in db.all_features()]
+        stmts = []
+        db.conn.set_trace_callback(stmts.append)
+        # 1. the failed write; the caller catches the exception
+        raised = None
+        try:
+            if w["op"] == "add_relation":
+                db.add_relation(w["parent"], w["child"], w["level"], **{w["failing"]: _broken_func})
+            else:
+                db.delete(list(w["ids"]), make_backup=False)        # the second element is not a feature: AttributeError
+        except (CallbackBroke, AttributeError, gffutils.FeatureNotFoundError) as ex:
+            raised = ex
+        except Exception as ex:             # e.g. IntegrityError: the relation exists already, nothing was executed
+            raised = ex
+        if raised is None:
+            res.count("failed_write_did_not_fail")
+            return
+        pending = bool(db.conn.in_transaction)
+        res.count("failed_write_%s_%s" % (w["op"], "leaves_a_pending_transaction" if pending else "nothing_pending"))
+        wrote = [x for x in stmts if x.strip().split(None, 1)[0].lower() in WRITE_WORDS]
+        del stmts[:]
+        # 2. read-style calls only
+        if w["op"] == "add_relation":
+            # two reads that are also World items (before the other reads: merge / interfeatures draw ids from the
+            # session's counters, which the World rendering shows)
+            rw.count(None)
+            rw.count("exon")
+        calls = read_calls(db, random.Random(case["calls_seed"]), ids, case["ncalls"], res)
+        for c in calls:
+            res.count("call_after_failed_write_" + c)
+        bad = [x for x in stmts if x.strip().split(None, 1)[0].lower() in WRITE_WORDS + ("commit", "end")]
+        if bad:
+            common.fail(res, case, "read_after_failed_write_issued_write",
+                        "a read-style method issued a write / COMMIT statement (after a failed write whose exception was "
+                        "caught, with its first statement still pending on the connection)", calls=calls, statements=bad[:5],
+                        failed_write_statements=wrote[:3], failed_write_raised=repr(raised))
+        # 3. close WITHOUT commit, reopen from the file
+        db.conn.set_trace_callback(None)
+        rw.abandon()
+        if logical_dump(dbfn) != before_all:
+            common.fail(res, case, "content_changed_after_failed_write_and_reads_logical",
+                        "after a failed write, read-style calls and closing without commit, the file's content (schema "
+                        "objects / rows) differs from the content before the failed write", calls=calls,
+                        failed_write_raised=repr(raised))
+        d1 = gffutils.FeatureDB(dbfn)
+        after = dbside.dump(d1)
+        d1.conn.close()
+        if after != before:
+            a_, b_ = dbside.parse_dump(after), dbside.parse_dump(before)
+            common.fail(res, case, "content_changed_after_failed_write_and_reads",
+                        "content after reopening differs from the content before the failed write, although only "
+                        "read-style calls followed it and the connection was closed without commit", calls=calls,
+                        failed_write_raised=repr(raised),
+                        relations_added=sorted(a_.get("relations", set()) - b_.get("relations", set())),
+                        relations_removed=sorted(b_.get("relations", set()) - a_.get("relations", set())),
+                        ids_now=[f["id"] for f in a_.get("features", [])], ids_before=[f["id"] for f in b_.get("features", [])])
+        rw.connect(name)
+        rw.count(None)
+        res.count("failed_write_then_reads")
+        res.nontriv(("failed_write", tuple(lines), repr(w), tuple(calls)))
+    finally:
+        rw.finish()
+        if scripts is not None and rw.items:
+            scripts.append((rw, repr({"lines": lines, "failed_write": w})))
+
+
 CLOBBER = [0]
 
 
@@ -88,6 +245,15 @@ def check_clobber(ctx, case, res, scripts=None):
         if rw.create(name, old_lines, cfg, bool(case.get("first_force"))) != "ok":
             res.count("old_input_not_importable")
             return
+        if case.get("old_delete"):
+            # the old database is a valid gffutils database from which features were removed with FeatureDB.delete():
+            # "all" -> ZERO features (directives, dialect and id counters are still there), "some" -> every other one
+            rw.connect(name)
+            ids = [f.id for f in rw.db.all_features()]
+            rw.delete(ids if case["old_delete"] == "all" else ids[::2], False)
+            rw._close()
+            res.count("clobber_old_database_emptied_with_delete" if case["old_delete"] == "all"
+                      else "clobber_old_database_partly_deleted")
         d0 = gffutils.FeatureDB(dbfn)
         before = dbside.dump(d0)
         d0.conn.close()
@@ -156,6 +322,8 @@ def judge(ctx, case):
     res = common.Result("C19")
     if case.get("scenario") == "clobber":
         check_clobber(ctx, case, res)
+    elif case.get("scenario") == "failed_write_then_reads":
+        check_failed_write(ctx, case, res)
     return res
 
 
@@ -166,7 +334,10 @@ def run(ctx):
     r = ctx.rng("c19")
     res.rule = ("(old database, new input) pairs x force in {False, True} on file databases named *.db, *.gffdb, *.sqlite, "
                 "without extension, ..., old and new inputs with features lacking an ID (auto-numbered keys) and directives, "
-                "all create_db calls of a pair in one process; random sequences of 5-25 "
+                "old databases from which all / some features were removed with FeatureDB.delete(), "
+                "all create_db calls of a pair in one process; a failed write (add_relation with a raising parent_func / "
+                "child_func, delete() over a list with a non-feature) followed by read-style calls, close without commit "
+                "and reopen; random sequences of 5-25 "
                 "read-style calls (look-up, iteration, children, parents, region, interfeatures, create_introns, "
                 "create_splice_sites, merge, children_bp, bed12, counts, featuretypes, seqids) with random arguments on "
                 "GFF3 and GTF databases under an sqlite statement trace. non-trivial = distinct (database, call sequence)")
@@ -176,7 +347,17 @@ def run(ctx):
     for i in range(n):
         case = {"scenario": "clobber", "name": "c19_%d%s" % (i, EXTENSIONS[i % len(EXTENSIONS)]),
                 "old": clobber_input(r, "o"), "input": clobber_input(r, "n"), "first_force": i % 3 == 1,
-                "also_failing_import": i % 5 == 0, "config": dbside.Cfg().to_json()}
+                "also_failing_import": i % 5 == 0, "config": dbside.Cfg().to_json(),
+                "old_delete": "all" if (i == 1 or i % 4 == 3) else "some" if i % 8 == 6 else None}
+        if i == 1:
+            # an emptied old database that keeps directives and non-trivial id counters (ID-less exons below a transcript)
+            case["old"] = ["##gff-version 3", "##sequence-region chrOLD 1 5000",
+                           gen_db.gff_line("chrOLD", "gene", 1, 1000, "+", [("ID", ["oldgene"])]),
+                           gen_db.gff_line("chrOLD", "mRNA", 1, 1000, "+", [("ID", ["oldtx"]), ("Parent", ["oldgene"])]),
+                           gen_db.gff_line("chrOLD", "exon", 1, 300, "+", [("Parent", ["oldtx"])]),
+                           gen_db.gff_line("chrOLD", "exon", 500, 1000, "+", [("Parent", ["oldtx"])])]
+            case["input"] = [gen_db.gff_line("chrNEW", "gene", 10, 90, "-", [("ID", ["newgene"])]),
+                             gen_db.gff_line("chrNEW", "CDS", 10, 90, "-", [("Parent", ["newgene"])])]
         if i == 0:
             # the shape of the seeded demos: old input all auto-numbered, new input two exons without ID
             case["old"] = ["##gff-version 3"] + [gen_db.gff_line("chr1", t, 100 + 10 * k, 200 + 10 * k, "+", [("Name", ["o%d" % k])])
@@ -189,6 +370,58 @@ def run(ctx):
     if wout is not None:
         for (rw, desc), reply in zip(scripts, wout):
             worldside.compare_world(res, "World.createDb (free / occupied path x force)", desc, rw, reply)
+
+    # a failed write, then reads only, then close without commit ---------------------------------------------------
+    r4 = ctx.rng("c19", "failed-write")
+    fscripts = []
+    for i in range(12 if not ctx.thorough else 120):
+        gtf = i > 2 and r4.random() < 0.3
+        if i <= 2:
+            # the shape of the seeded demo: two genes, a lone exon that is nobody's child yet
+            lines = ["##gff-version 3",
+                     gen_db.gff_line("chr1", "gene", 1, 1000, "+", [("ID", ["g1"])]),
+                     gen_db.gff_line("chr1", "mRNA", 1, 1000, "+", [("ID", ["t1"]), ("Parent", ["g1"])]),
+                     gen_db.gff_line("chr1", "exon", 1, 300, "+", [("ID", ["e1"]), ("Parent", ["t1"])]),
+                     gen_db.gff_line("chr1", "gene", 2000, 3000, "-", [("ID", ["g2"])]),
+                     gen_db.gff_line("chr1", "exon", 2000, 2500, "-", [("ID", ["e2"])])]
+            ids = ["g1", "t1", "e1", "g2", "e2"]
+            rels = set()
+        elif gtf:
+            lines = gen_db.gtf_lines(gen_db.rand_gtf_forest(r4))
+        else:
+            lines = gen_db.graph_lines(gen_db.rand_gff3_graph(r4, n=r4.randrange(3, 12), dangling=False))
+        if not lines:
+            continue
+        if i > 2:
+            probe, _ = dbside.py_create(dbside.write_lines(os.path.join(ctx.scratch, "fw_probe.txt"), lines), dbside.Cfg())
+            if probe is None:
+                continue
+            ids = [f.id for f in probe.all_features()]
+            rels = set(dbside.rels_of(probe))
+            probe.conn.close()
+        if not ids:
+            continue
+        if i == 2 or (i > 2 and r4.random() < 0.3):
+            # delete() over a list whose second element is not a feature: the first one is deleted, then AttributeError
+            write = {"op": "delete", "ids": [r4.choice(ids), 5]}
+        else:
+            p_, c_, l_ = "g2", "e2", 1
+            if i > 2:
+                for _ in range(6):
+                    p_, c_, l_ = r4.choice(ids), r4.choice(ids), r4.choice([1, 1, 2, 3])
+                    if (p_, c_, l_) not in rels:
+                        break
+                else:
+                    l_ = 9
+            write = {"op": "add_relation", "parent": p_, "child": c_, "level": l_,
+                     "failing": "parent_func" if i == 1 or (i > 2 and r4.random() < 0.4) else "child_func"}
+        case = {"scenario": "failed_write_then_reads", "input": lines, "write": write, "calls_seed": r4.getrandbits(32),
+                "ncalls": 4 if i <= 2 else r4.randrange(1, 12), "config": dbside.Cfg().to_json(), "no_shrink": True}
+        check_failed_write(ctx, case, res, fscripts)
+    fout = ctx.model([rw.command() for rw, _ in fscripts])
+    if fout is not None:
+        for (rw, desc), reply in zip(fscripts, fout):
+            worldside.compare_world(res, "World (failed write keeps the pre-state; reads; reopen from the file)", desc, rw, reply)
 
     # reads never write ------------------------------------------------------------------------------
     m = 20 if not ctx.thorough else 200
@@ -217,52 +450,7 @@ def run(ctx):
         stmts = []
         db.conn.set_trace_callback(stmts.append)
         ids = [f.id for f in db.all_features()]
-        calls = []
-        for _ in range(r.randrange(5, 26)):
-            x = r.choice(ids)
-            k = r.randrange(14)
-            try:
-                with warnings.catch_warnings():
-                    warnings.simplefilter("ignore")
-                    if k == 0:
-                        calls.append("getitem"); db[x]
-                    elif k == 1:
-                        calls.append("all_features"); list(db.all_features(order_by=r.choice([None, "start", "length"])))
-                    elif k == 2:
-                        calls.append("features_of_type"); list(db.features_of_type(r.choice(["exon", "gene", "mRNA"])))
-                    elif k == 3:
-                        calls.append("children"); list(db.children(x, level=r.choice([None, 1, 2])))
-                    elif k == 4:
-                        calls.append("parents"); list(db.parents(x))
-                    elif k == 5:
-                        calls.append("region"); list(db.region(seqid="chr1", start=1, end=r.randrange(1, 5000),
-                                                               completely_within=r.random() < 0.5))
-                    elif k == 6:
-                        calls.append("interfeatures"); list(db.interfeatures(db.all_features(order_by=("seqid", "start"))))
-                    elif k == 7:
-                        calls.append("create_introns"); list(db.create_introns())
-                    elif k == 8:
-                        calls.append("merge"); list(db.merge(db.all_features(order_by=("seqid", "strand", "featuretype", "start"))))
-                    elif k == 9:
-                        calls.append("children_bp"); db.children_bp(x, child_featuretype="exon", merge=r.random() < 0.5)
-                    elif k == 10:
-                        calls.append("bed12")
-                        try:
-                            db.bed12(x)
-                        except (ValueError, AssertionError, UnboundLocalError):
-                            pass
-                    elif k == 11:
-                        calls.append("count"); db.count_features_of_type(r.choice([None, "exon"]))
-                    elif k == 12:
-                        calls.append("featuretypes/seqids"); list(db.featuretypes()); list(db.seqids())
-                    else:
-                        calls.append("create_splice_sites")
-                        try:
-                            list(db.create_splice_sites())
-                        except (KeyError, IndexError):
-                            pass        # exons without ID attribute: outside the property's domain for splice sites
-            except Exception as ex:
-                res.count("read_call_raised_" + type(ex).__name__)
+        calls = read_calls(db, r, ids, r.randrange(5, 26), res)
         res.evaluations += 1
         res.nontriv((tuple(lines), tuple(calls)))
         for c in calls:
@@ -299,7 +487,9 @@ def run(ctx):
                     res.corr_disagreements.append((comp, inp[:700], mm[:500], e[:500]))
             elif mm != e:
                 res.corr_disagreements.append((comp, inp[:700], mm[:300], e[:300]))
-    res.assumptions = ["'content' of a database file = features, relations, directives, dialect and id counters as "
+    res.assumptions = ["a COMMIT issued during read-style calls counts as a write only in the failed-write scenario, where the "
+                       "connection holds the pending first statement of the failed call",
+                       "'content' of a database file = features, relations, directives, dialect and id counters as "
                        "observed through a fresh FeatureDB (pragmas / sqlite header bytes are not content)"]
     common.shrink_first_failure(res, lambda case: judge(ctx, case))
     return res
@@ -307,7 +497,7 @@ def run(ctx):
 
 def replay(ctx, payload):
     p = payload.get("input")
-    if isinstance(p, dict) and p.get("scenario") == "clobber" and "kind" in p:
+    if isinstance(p, dict) and p.get("scenario") in ("clobber", "failed_write_then_reads") and "kind" in p:
         return common.replay_failure("C19", payload, lambda case: judge(ctx, case))
     res = common.Result("C19")
     print("replay:", payload.get("what"), payload.get("input"))
